@@ -13,7 +13,13 @@ import (
 
 // writeSet collects the variables syntactically assigned in the nodes, and whether heap
 // memory may be written (field/element stores, appends, calls).
+type memBlockWrite struct {
+	mem  string
+	base ast.Expr
+}
+
 type writeSet struct {
+	blocks  []memBlockWrite // element stores whose base slice may be loop-invariant: only that block is havoc'd
 	names   map[string]bool // heap arrays that may be written (when heap is false)
 	globals map[*types.Var]bool
 	vars  map[types.Object]bool
@@ -73,7 +79,7 @@ func (x *Exec) collectWrites(ws *writeSet, nodes ...ast.Node) {
 			}
 			switch u := t.Underlying().(type) {
 			case *types.Slice:
-				addName(memName(x.eng.tm.sortOf(u.Elem())))
+				ws.blocks = append(ws.blocks, memBlockWrite{mem: memName(x.eng.tm.sortOf(u.Elem())), base: l.X})
 				return true
 			case *types.Map:
 				vn, dn, _, _ := x.mapNames(t)
@@ -311,7 +317,124 @@ func (x *Exec) evalClause(s *State, c *Clause) *Term {
 	return x.evalCond(s, c.Expr)
 }
 
+// resolveBlocks decides, for each element store, whether its base slice is loop-invariant; if so only the
+// block of that slice (evaluated before the loop) is havoc'd, otherwise the whole memory of that element sort.
+func (x *Exec) resolveBlocks(s *State, ws *writeSet) []struct {
+	mem string
+	blk *Term
+} {
+	var out []struct {
+		mem string
+		blk *Term
+	}
+	for _, b := range ws.blocks {
+		if ws.heap || (ws.names != nil && ws.names[b.mem]) {
+			continue
+		}
+		stable := true
+		var fields []string
+		var rootOK func(e ast.Expr) bool
+		rootOK = func(e ast.Expr) bool {
+			switch l := e.(type) {
+			case *ast.Ident:
+				o := x.objOf(l)
+				if o == nil || ws.vars[o] {
+					return false
+				}
+				if v, ok := o.(*types.Var); ok && x.isGlobal(v) {
+					return false
+				}
+				return true
+			case *ast.ParenExpr:
+				return rootOK(l.X)
+			case *ast.SelectorExpr:
+				sel := x.selection(l)
+				if sel == nil || sel.Kind() != types.FieldVal {
+					return false
+				}
+				t := x.typeOf(l.X)
+				for _, i := range sel.Index() {
+					if t == nil {
+						return false
+					}
+					if isPointer(t) {
+						st := elemOfPointer(t)
+						if !isStruct(st) {
+							return false
+						}
+						si := x.eng.tm.structOf(st)
+						fields = append(fields, fieldHeapName(si, i))
+						t = si.fields[i].Type()
+						continue
+					}
+					if !isStruct(t) {
+						return false
+					}
+					t = x.eng.tm.structOf(t).fields[i].Type()
+				}
+				return rootOK(l.X)
+			}
+			return false
+		}
+		if !rootOK(b.base) {
+			stable = false
+		}
+		for _, f := range fields {
+			if ws.names != nil && ws.names[f] {
+				stable = false
+			}
+		}
+		if !stable {
+			if ws.names == nil {
+				ws.names = map[string]bool{}
+			}
+			ws.names[b.mem] = true
+			continue
+		}
+		x.dry++
+		sv := x.eval(s, b.base)
+		x.dry--
+		if sv.S != SliceSort {
+			ws.names[b.mem] = true
+			continue
+		}
+		out = append(out, struct {
+			mem string
+			blk *Term
+		}{b.mem, Field(sv, 0)})
+	}
+	// a later full-memory write overrides block-level entries
+	var kept []struct {
+		mem string
+		blk *Term
+	}
+	for _, o := range out {
+		if ws.names != nil && ws.names[o.mem] {
+			continue
+		}
+		kept = append(kept, o)
+	}
+	return kept
+}
+
 func (x *Exec) havocVars(s *State, ws *writeSet) {
+	blocks := x.resolveBlocks(s, ws)
+	defer func() {
+		if ws.heap {
+			return
+		}
+		for _, b := range blocks {
+			mem, ok := s.heap[b.mem]
+			if !ok {
+				mem = x.heapInit(b.mem, nil)
+				if mem == nil {
+					continue
+				}
+			}
+			fresh := x.freshVar("blockhavoc", mem.S.Elem)
+			x.heapSet(s, b.mem, Store(mem, b.blk, fresh))
+		}
+	}()
 	// deterministic order
 	type ov struct {
 		o types.Object
